@@ -28,6 +28,17 @@ NoNeighbourEffect == [][\A c \in DOMAIN G : es'[Len(es')].c # c =>
 MergedInside == \A d \in 0..1 : \A i \in DOMAIN GMerged(es, G, d) :
                    LET m == GMerged(es, G, d)[i] IN 0 <= m.s /\ m.s < m.e /\ m.e <= G[m.c]
 
+\* locations mapped into the coordinates of the intervals that hold them (GenomicIntervals.map_locations): every base of the genome in
+\* genome order is a location; interval i (in the order given) receives the locations of ITS contig with s <= p < e, at position p - s.
+\* A location never lands in an interval of another contig (the first base of a contig is not inside an interval that ends the previous one).
+AllLocs == LET RECURSIVE L(_) L(c) == IF c > Len(G) THEN <<>> ELSE [p \in 1..G[c] |-> [c |-> c, p |-> p - 1]] \o L(c + 1) IN L(1)
+MapLoc == LET RECURSIVE M(_)
+              M(i) == IF i > Len(es) THEN <<>>
+                      ELSE LET inside == SelectSeq(AllLocs, LAMBDA l : l.c = es[i].c /\ es[i].s <= l.p /\ l.p < es[i].e)
+                           IN [k \in DOMAIN inside |-> [iv |-> i, pos |-> inside[k].p - es[i].s, c |-> inside[k].c, p |-> inside[k].p]] \o M(i + 1)
+          IN M(1)
+MapLocInside == \A k \in DOMAIN MapLoc : MapLoc[k].pos >= 0 /\ MapLoc[k].pos < es[MapLoc[k].iv].e - es[MapLoc[k].iv].s /\ MapLoc[k].c = es[MapLoc[k].iv].c
+
 Val(c, p) == 10 * c + p        \* a track with a distinct value at every base
 Stick(i) == [c |-> es[i].c, s |-> es[i].s, e |-> es[i].e + (IF i % 2 = 0 THEN Over ELSE 0), st |-> es[i].st]
 Emit == PrintT(ToJson([G |-> G, es |-> es,
@@ -49,5 +60,6 @@ Emit == PrintT(ToJson([G |-> G, es |-> es,
                                                                           IN Under(Val, [c |-> w.c, s |-> w.s, e |-> w.e, st |-> es[i].st], TRUE)]],
                        underwin |-> [f \in 1..2 |-> [i \in DOMAIN es |-> LET w == Window(es[i].c, es[i].s, f - 1, G)
                                                                           IN Under(Val, [c |-> w.c, s |-> w.s, e |-> w.e, st |-> es[i].st], TRUE)]],
+                       maploc |-> [k \in DOMAIN MapLoc |-> <<MapLoc[k].iv, MapLoc[k].pos>>],
                        offsets |-> [c \in DOMAIN G |-> Offset(G, c)]]))
 ==============================================================================
